@@ -115,8 +115,14 @@ class Ctx:
                 continue
             viol.append(o)
         out_dir = os.path.join(VERIF, "out")
+        ev_dir = os.path.join(VERIF, "evidence")
+        from . import build as _build
+        if os.path.abspath(_build.REPO) != os.path.abspath(_build.REPO_DEFAULT):
+            # a run on a scratch copy (self-tests) must not overwrite the evidence of /repo
+            out_dir = os.path.join(VERIF, "out", "scratch")
+            ev_dir = os.path.join(VERIF, "out", "scratch", "evidence")
         os.makedirs(out_dir, exist_ok=True)
-        os.makedirs(os.path.join(VERIF, "evidence"), exist_ok=True)
+        os.makedirs(ev_dir, exist_ok=True)
         wall = time.time() - self.t0
         nob = len(self.obligations)
         samples = []
@@ -154,6 +160,8 @@ class Ctx:
             "notes": self.notes,
             "inconclusive": self.inconclusive,
         }
+        if getattr(self, "selftest", None) is not None:
+            cov["sensitivity_selftest"] = self.selftest
         if level == "proof" and (n_ok != nob or self.inconclusive):
             # a proof-level claim needs every obligation discharged; otherwise report as 'other'
             level = "other"
@@ -167,7 +175,7 @@ class Ctx:
             "wall_s": round(wall, 3),
             "violations": len(viol),
         }
-        with open(os.path.join(VERIF, "evidence", "%s.json" % self.prop), "w") as f:
+        with open(os.path.join(ev_dir, "%s.json" % self.prop), "w") as f:
             json.dump(ev, f, indent=1, sort_keys=False)
         for o in knownhits:
             print("KNOWN-FINDING: property=%s %s %s" % (self.prop, o["key"], known[o["key"]].get("what", o["what"])))
